@@ -1,8 +1,9 @@
 // C20 — compression codecs are lossless whatever was compressed before.
 //
 // Histories of Encode / Decode calls (valid inputs, failing inputs, every way of
-// passing dst) on the codec values exported by package parquet, which are
-// shared process-wide; after each call the property predicate is evaluated:
+// passing dst, every way the caller goes on using the source buffers, from one
+// goroutine or from more goroutines than Ps) on the codec values exported by
+// package parquet, which are shared process-wide; after each call the property predicate is evaluated:
 // Decode(Encode(x)) == x, every answer equals the answer of a FRESH codec
 // instance, no panic, no hang, no unbounded allocation on failing inputs.
 // The histories on the real codecs run in a memory-capped child process.
@@ -59,8 +60,11 @@ func genInput(c *core.Ctx, maxSize int) inputSpec {
 	return inputSpec{Gen: pickStr(c, "rand", "rep", "text", "zero", "ramp", "mixed"), Size: size, Seed: int64(c.Rng.Intn(1 << 20))}
 }
 
+// genDst: a destination for a result of about size bytes: none, no capacity, a
+// few bytes, any capacity below the size, the size itself and one byte less or
+// more, much more, or the result of an earlier call.
 func genDst(c *core.Ctx, size int) dstSpec {
-	switch c.Rng.Intn(6) {
+	switch c.Rng.Intn(7) {
 	case 0:
 		return dstSpec{Mode: "nil"}
 	case 1:
@@ -70,13 +74,23 @@ func genDst(c *core.Ctx, size int) dstSpec {
 	case 3:
 		return dstSpec{Mode: "large", Cap: 2*size + 64 + c.Rng.Intn(512)}
 	case 4:
-		return dstSpec{Mode: "large", Cap: size + c.Rng.Intn(3)} // exactly around the needed size
+		if size > 0 {
+			return dstSpec{Mode: "large", Cap: size - 1 + c.Rng.Intn(3)} // exactly around the needed size
+		}
+		return dstSpec{Mode: "large", Cap: c.Rng.Intn(2)}
+	case 5:
+		return dstSpec{Mode: "small", Cap: 1 + c.Rng.Intn(size+1)} // short by any amount
 	}
 	return dstSpec{Mode: "alias"}
 }
 
+// genSrc: what the caller does with the source buffers after the call.
+func genSrc(c *core.Ctx) string {
+	return []string{"", "", "overwrite", "overwrite", "reuse"}[c.Rng.Intn(5)]
+}
+
 func genBad(c *core.Ctx, codec string, hostileMax int) op {
-	o := op{Kind: "bad", DecDst: genDst(c, 64)}
+	o := op{Kind: "bad", DecDst: genDst(c, 64), Src: genSrc(c)}
 	o.In = genInput(c, hostileMax)
 	modes := []string{"trunc", "trunc", "flip", "flip", "tail", "tail", "garbage", "garbage", "gzhdr", "zstdhdr", "empty", "lz4len"}
 	if codec == "magic" {
@@ -103,7 +117,7 @@ func genHistory(c *core.Ctx, codec string, nOps, maxSize, hostileMax int, badRat
 			h.Ops = append(h.Ops, op{Kind: "gc"})
 		default:
 			in := genInput(c, maxSize)
-			h.Ops = append(h.Ops, op{Kind: "rt", In: in, EncDst: genDst(c, in.Size), DecDst: genDst(c, in.Size)})
+			h.Ops = append(h.Ops, op{Kind: "rt", In: in, EncDst: genDst(c, in.Size), DecDst: genDst(c, in.Size), Src: genSrc(c)})
 		}
 	}
 	return h
@@ -191,6 +205,48 @@ func boundaryHistories(c *core.Ctx) []*history {
 	return hs
 }
 
+// ---- many goroutines, few Ps, pages of a few hundred KiB ---------------------------
+//
+// A call on such a page runs for longer than the scheduler's time slice: with
+// fewer Ps than goroutines it is descheduled half way and other goroutines make
+// their calls on the same P (so with the same per-P pool slots) before it is
+// resumed.  Every goroutine round-trips a page of every input kind on the one
+// codec value and compares what it gets with its own input.
+
+// stormMax: the largest page of a storm; the settings that take seconds per
+// MiB get smaller pages, their calls outlast a time slice all the same.
+func stormMax(c *core.Ctx, name, gen string) int {
+	base, level, _ := strings.Cut(name, "@")
+	switch {
+	case base == "brotli" && (strings.HasPrefix(level, "10") || strings.HasPrefix(level, "11")):
+		return c.N(16<<10, 64<<10)
+	case base == "brotli" && strings.HasPrefix(level, "9"):
+		return c.N(48<<10, 128<<10)
+	case base == "zstd" && level == "4":
+		return c.N(128<<10, 512<<10)
+	case base == "gzip" && level == "9" && (gen == "zero" || gen == "rep" || gen == "mixed"):
+		return c.N(24<<10, 64<<10) // runs of one byte: a second per MiB
+	}
+	return c.N(320<<10, 1<<20)
+}
+
+func stormHistory(c *core.Ctx, name string) *history {
+	h := &history{Codec: name, Goroutines: c.N(6, 8) + c.Rng.Intn(5), Procs: []int{1, 2, 2, 4}[c.Rng.Intn(4)], DeadlineS: 100}
+	gens := []string{"rand", "rep", "text", "zero", "ramp", "mixed"}
+	c.Rng.Shuffle(len(gens), func(i, j int) { gens[i], gens[j] = gens[j], gens[i] })
+	for _, g := range gens {
+		max := stormMax(c, name, g)
+		in := inputSpec{Gen: g, Size: max/4 + c.Rng.Intn(max-max/4+1), Seed: int64(c.Rng.Intn(1 << 20))}
+		// dst: none, or the buffers of the goroutine's previous call (the usual reuse)
+		enc, dec := dstSpec{Mode: "nil"}, dstSpec{Mode: "nil"}
+		if c.Rng.Intn(2) == 0 {
+			enc, dec = dstSpec{Mode: "alias"}, dstSpec{Mode: "alias"}
+		}
+		h.Ops = append(h.Ops, op{Kind: "rt", In: in, EncDst: enc, DecDst: dec, Src: genSrc(c)})
+	}
+	return h
+}
+
 // ---- running and reporting ----------------------------------------------------
 
 // outcomeOf runs a history in a child process (also the test codec: a broken
@@ -235,8 +291,12 @@ func runAll(hs []*history) []done {
 		go func(i int) {
 			defer wg.Done()
 			defer func() { <-sem }()
+			t0 := time.Now()
 			fs, res := outcomeOf(hs[i])
 			results[i] = done{fs, res}
+			if os.Getenv("C20_TIMING") != "" {
+				fmt.Fprintf(os.Stderr, "timing %6.2fs %s goroutines=%d procs=%d ops=%d\n", time.Since(t0).Seconds(), hs[i].Codec, hs[i].Goroutines, hs[i].Procs, len(hs[i].Ops))
+			}
 		}(i)
 	}
 	wg.Wait()
@@ -283,11 +343,24 @@ func shrink(h *history, f failure, budget int) (*history, failure) {
 		}
 		for _, n := range []int{2, 4} {
 			if n < cur.Goroutines {
-				t := &history{Codec: h.Codec, Ops: h.Ops, Goroutines: n}
+				t := &history{Codec: h.Codec, Ops: h.Ops, Goroutines: n, Procs: h.Procs}
 				if g := try(t); g != nil {
 					cur, curF = t, *g
 					break
 				}
+			}
+		}
+		// fewer calls per goroutine (a failure that depends on the schedule may need more than one attempt)
+		for i := 0; i < len(cur.Ops) && len(cur.Ops) > 1 && budget > 0; {
+			t := &history{Codec: cur.Codec, Goroutines: cur.Goroutines, Procs: cur.Procs, Ops: append(append([]op(nil), cur.Ops[:i]...), cur.Ops[i+1:]...)}
+			g := try(t)
+			if g == nil {
+				g = try(t)
+			}
+			if g != nil {
+				cur, curF = t, *g
+			} else {
+				i++
 			}
 		}
 		return cur, curF
@@ -396,7 +469,7 @@ func record(c *core.Ctx, h *history, res *execResult) {
 }
 
 func runC20(c *core.Ctx) {
-	c.Res.Rule = "histories of calls on each codec value exported by package parquet (Uncompressed, Snappy, Gzip, Brotli, Zstd, Lz4Raw: shared, pooled), on one shared value per compression level of each codec type (zstd 0-4, gzip -2/0/1/6/9, brotli quality 1-11 and lgwin 10-24, LZ4 Fastest and HC 1/4/9) and on a test codec run through the real compress.Compressor/Decompressor: round trips of generated inputs (empty, 1 B, random, repetitive, text-like, zero, ramp, mixed; sizes up to 64 KiB quick / 4 MiB thorough at random, and for every value and level the sizes just below and above 32/64/128 KiB, thorough also 1/4/8/16/32 MiB, quick 4/8 MiB for the exported values and every zstd level) with dst nil / zero-cap / small / large pre-filled with garbage / exact / aliasing an earlier output, interleaved with failing decodes (truncated and bit-flipped valid streams, valid streams followed by trailing bytes, random garbage, gzip and zstd headers followed by garbage, length bombs, empty) and GC cycles, sequentially and from 8-32 goroutines at once. A case is one call (or call pair) of a history; non-trivial = non-empty input or a failing decode; distinct by codec + JSON of the call."
+	c.Res.Rule = "histories of calls on each codec value exported by package parquet (Uncompressed, Snappy, Gzip, Brotli, Zstd, Lz4Raw: shared, pooled), on one shared value per compression level of each codec type (zstd 0-4, gzip -2/0/1/6/9, brotli quality 1-11 and lgwin 10-24, LZ4 Fastest and HC 1/4/9) and on a test codec run through the real compress.Compressor/Decompressor: round trips of generated inputs (empty, 1 B, random, repetitive, text-like, zero, ramp, mixed; sizes up to 64 KiB quick / 4 MiB thorough at random, and for every value and level the sizes just below and above 32/64/128 KiB, thorough also 1/4/8/16/32 MiB, quick 4/8 MiB for the exported values and every zstd level) with dst nil / zero-cap / a few bytes / short by any amount / one byte less than, exactly and one byte more than needed / large pre-filled with garbage / aliasing an earlier output, and with the SOURCE buffers of the call left alone, overwritten by the caller as soon as the call has returned (input of Encode, encoded form after Decode) or handed to the next Encode as its destination (buf, _ = Encode(buf[:0], next)) after which the earlier result must be unchanged, interleaved with failing decodes (truncated and bit-flipped valid streams, valid streams followed by trailing bytes, random garbage, gzip and zstd headers followed by garbage, length bombs, empty) and GC cycles, sequentially and from 8-32 goroutines at once (GOMAXPROCS of the child 1, 2, 4 or all), and for every codec value and level from 6-12 goroutines on 1, 2 or 4 Ps round-tripping pages of up to 320 KiB quick / 1 MiB thorough of every input kind (smaller for brotli quality >= 9, zstd level 4 and gzip 9 on runs: a call outlasts the scheduler's time slice and is resumed after calls of other goroutines on the same P). A case is one call (or call pair) of a history; non-trivial = non-empty input or a failing decode; distinct by codec + JSON of the call."
 	quickTier = c.Quick()
 	maxSize := c.N(64<<10, 4<<20)
 	hostileMax := c.N(16<<10, 128<<10)
@@ -425,6 +498,7 @@ func runC20(c *core.Ctx) {
 		for k := 0; k < c.N(3, 10); k++ {
 			h := genHistory(c, name, 8+c.Rng.Intn(8), c.N(16<<10, 256<<10), 4096, 30)
 			h.Goroutines = []int{8, 16, 32}[c.Rng.Intn(3)]
+			h.Procs = []int{0, 1, 2, 4}[c.Rng.Intn(4)]
 			hs = append(hs, h)
 		}
 	}
@@ -445,7 +519,14 @@ func runC20(c *core.Ctx) {
 		}
 		h := genHistory(c, name, 6+c.Rng.Intn(6), 16<<10, 4096, 30)
 		h.Goroutines = []int{8, 16}[c.Rng.Intn(2)]
+		h.Procs = []int{0, 1, 2, 4}[c.Rng.Intn(4)]
 		hs = append(hs, h)
+	}
+	// every codec value and level: pages of a few hundred KiB from more goroutines than Ps
+	for _, name := range codecNames(true) {
+		for k := 0; k < c.N(1, 3); k++ {
+			hs = append(hs, stormHistory(c, name))
+		}
 	}
 	// sizes at the thresholds of the formats, every codec value and level
 	hs = append(hs, boundaryHistories(c)...)
